@@ -102,6 +102,8 @@ def moveToFront {α : Type} (l : List (ListElem α)) (id : Nat) : List (ListElem
 def setValue {α : Type} (l : List (ListElem α)) (id : Nat) (v : α) : List (ListElem α) :=
   l.map (fun x => if x.id == id then { x with Value := v } else x)
 
+/-- the result of fmt.Sprintf / fmt.Sprint: message texts are not modelled -/
+def formatted : String := "<formatted>"
 /-- `a & b` on Go ints -/
 def iand (a b : Int) : Int :=
   match a, b with
